@@ -338,7 +338,9 @@ def big_find_jobs(rng, tier, add):
                 p["input"][rng.choice([1, 2]) * c_ + rng.randrange(0, 20)] = rng.choice(bad)
             else:
                 p["n"] = 30000
-        add(norm(p), "free", logcalls=0, timeout_ms=180000)
+        # explicit inputs run under the deterministic scheduler (uniform random choice): the owner of the
+        # later chunk reaches its match after a few steps, when the owner of chunk 0 is still near its start
+        add(norm(p), "rand" if len(p["input"]) > 2000 else "free", logcalls=0, timeout_ms=180000, sticky=0.0)
 
 
 def jobs_for(prop, tier, seed):
